@@ -54,6 +54,8 @@ func main() {
 		os.Exit(cmdProbes(os.Args[2:]))
 	case "loops":
 		os.Exit(cmdLoops(os.Args[2:]))
+	case "specs":
+		os.Exit(cmdSpecs(os.Args[2:]))
 	default:
 		fmt.Fprintln(os.Stderr, "unknown command", os.Args[1])
 		os.Exit(2)
@@ -449,6 +451,27 @@ func runCheck(o checkOpts) int {
 		"contract_notes":           db.notes,
 		"spec_hashes":              specs.Hashes,
 	}
+	{
+		// the spec library is compared with independent Go reference implementations on ground
+		// instances (bounded validation of an assumption, never counted as proved)
+		n := 12
+		if o.tier == "thorough" {
+			n = 60
+		}
+		sr := validateSpecs(specs, scratch, n, 20261001+int64(o.seed))
+		cov["spec_validation_bounded"] = map[string]any{"spec_functions": sr.Functions, "ground_instances": sr.Instances, "agree_with_go_reference": sr.Agreed,
+			"canary_wrong_value_refuted": sr.Canary == "sat", "not_covered": "layout functions (flatten, validloc: tied to the compiler's addresses by probes/C01/axiom_layout_test.go instead), duct tree functions, order axioms"}
+		for _, f := range sr.Failures {
+			violations++
+			rp := filepath.Join(outRoot, "replays", id+"-spec-validation.json")
+			b, _ := json.MarshalIndent(map[string]any{"property": id, "obligation": "specs:validation", "meaning": "a spec function of /verif/specs disagrees with its reference implementation: no proof against it can be believed", "detail": sr.Failures}, "", " ")
+			os.MkdirAll(filepath.Dir(rp), 0o755)
+			os.WriteFile(rp, b, 0o644)
+			fmt.Printf("FAILED specs:validation %s\n", f)
+			fmt.Printf("VIOLATION property=%s replay=%s no-failing-input-found\n", id, rp)
+			break
+		}
+	}
 	if o.tier == "thorough" && !o.noprobe && o.only == "" {
 		// bounded testing of the real code by the directed probe corpus: a probe that fails
 		// (twice in a row: some probes use wall-clock time) is a failing input; passing probes
@@ -582,7 +605,7 @@ func writeEvidence(id string, o checkOpts, t0 time.Time, cov map[string]any, sam
 	tb := append([]string{
 		"Go -> symbolic execution translation and VC generation of /verif/engine (exercised by the must-fail corpus, not verified)",
 		"SMT solvers z3 5.1.0, cvc5 1.0.3, z3 4.8.12 (raced; cross-checked in the thorough tier)",
-		"spec functions in /verif/specs mean what their names say",
+		"spec functions in /verif/specs mean what their names say (the list and trace functions are compared with Go reference implementations on random ground instances in every run: bounded validation, see coverage.spec_validation_bounded; the layout, duct-tree and order specs are read by eye only)",
 		"heap well-formedness: references read from variables and fields are allocated; user-supplied functions do not panic, do not touch the structures under proof and do not retain their arguments",
 	}, assumed...)
 	cov["trusted_base"] = tb
